@@ -7,7 +7,9 @@ CFG = {
              "(exact rational interpolation of the endpoints, nearest representable value; BC1 three-colour mode iff "
              "color0<=color1, BC2/BC3 colour always four-colour; explicit alpha x17; SNORM -128=-127) at U8, U16 and "
              "F32 (f32 as bit patterns against a software round-to-nearest-even), plus DXT2/DXT4 un-premultiplication "
-             "and the RXGB swizzle; BC3n: R,G proved, B (calc_b) left to the tie. Proof by decomposition: finite "
+             "and the RXGB swizzle, and BC3n (R, G and the f32-computed B = calc_b(R,G), proved equal to the nearest 8-bit value "
+             "of 255*(sqrt(1-x^2-y^2)/2+1/2) on all 65 536 pairs by kernel evaluation of integer float operations that are "
+             "proved equal to the software-float model for all arguments). Proof by decomposition: finite "
              "lemmas over interpolation numerators (decide +kernel) + generic index/bit-field lemmas. The model is "
              "tied to the code through dds::decode on multi-block surfaces, exhaustively by decomposition.",
     "note": "Trusted: Lean kernel + propext/Classical.choice/Quot.sound; the hand-written models Bc.lean/F32.lean "
